@@ -186,8 +186,9 @@ def _tn_cases(draw, tier):
         d["P"] = [list(d["P"][0]) if i < nv_ else q for i, q in enumerate(d["P"])]
         d["pole"] = True
         prm = [[["start"], prm[0][1]]] + prm[:2]
-        return {"defn": d, "params": prm, "normalize": True, "as_list": draw(st.booleans())}
-    return {"defn": d, "params": prm, "normalize": draw(st.booleans()), "as_list": draw(st.booleans())}
+        return {"defn": d, "params": prm, "normalize": True, "as_list": draw(st.booleans()), "scale_exp": 0}
+    return {"defn": d, "params": prm, "normalize": draw(st.booleans()), "as_list": draw(st.booleans()),
+            "scale_exp": draw(st.sampled_from([0, 0, 0, -24, -40, -40, 20]))}
 
 
 def _norm2(v):
@@ -212,6 +213,13 @@ def _parallel_same_sense(got, refv, unit, tag, what, ctx):
 
 def check_tangent_normal(case, ctx):
     d = case["defn"]
+    e_ = case.get("scale_exp", 0)
+    if e_:
+        # a model in very small (or large) units: all coordinates scaled by an exact power of two; directions do not change
+        d = dict(d)
+        d["P"] = [[c * 2.0 ** e_ for c in q] for q in d["P"]]
+        ctx.label("tiny-or-large-coordinates")
+    thr = F(1, 10 ** 12) * F(4) ** e_          # 'degenerate' is relative to the units of the model
     obj = build.make(d)
     R = build.exact_from(d, obj)
     nrm = case["normalize"]
@@ -227,7 +235,7 @@ def check_tangent_normal(case, ctx):
     ctx.label("list-form", case["as_list"])
     skipped = 0
     if d["kind"] == "curve":
-        if nrm and case["as_list"] and any(_norm2(D[(1,)]) < F(1, 10 ** 12) for D, _ in exact):
+        if nrm and case["as_list"] and any(_norm2(D[(1,)]) < thr for D, _ in exact):
             # vector_normalize raises on a zero vector: no unit tangent exists there (outside the property's domain)
             raise Skip("degenerate tangent")
         if case["as_list"]:
@@ -237,12 +245,12 @@ def check_tangent_normal(case, ctx):
             res = []
             for us in plist:
                 D, M = exact[len(res)]
-                if nrm and _norm2(D[(1,)]) < F(1, 10 ** 12):
+                if nrm and _norm2(D[(1,)]) < thr:
                     res.append(None)
                     continue
                 res.append(operations.tangent(obj, us[0], normalize=nrm))
         for r, us, (D, M) in zip(res, plist, exact):
-            if r is None or (nrm and _norm2(D[(1,)]) < F(1, 10 ** 12)):
+            if r is None or (nrm and _norm2(D[(1,)]) < thr):
                 skipped += 1
                 continue
             pt, vec = r
@@ -252,7 +260,7 @@ def check_tangent_normal(case, ctx):
         def degenerate(D):
             su, sv = D[(1, 0)], D[(0, 1)]
             cr = _cross(su, sv)
-            return _norm2(su) < F(1, 10 ** 12) or _norm2(sv) < F(1, 10 ** 12) or _norm2(cr) < F(1, 10 ** 12)
+            return _norm2(su) < thr or _norm2(sv) < thr or _norm2(cr) < thr * F(4) ** e_
         if nrm and any(degenerate(D) for D, _ in exact):
             # no unit tangent / normal exists where a first partial derivative (or their cross product) vanishes, e.g. at a pole:
             # the library may refuse; if it answers, what it calls normalised vectors are unit vectors
